@@ -398,3 +398,79 @@ func runConcurrentExport(t *testing.T, src, sched *choice.Source, st *Stats) (fs
 }
 
 var _ = model2d.XY
+
+// ---------------------------------------------------------------- streaming mesh PLY
+//
+// The streaming mesh writer (explicit vertices with colours, explicit index
+// triples) against ReadColorPLY: indices, order and colours come back as written.
+func runPLYMeshStream(src *choice.Source, st *Stats) (fs []Finding) {
+	defer recoverTo("ply_meshstream", &fs)
+	nv := 1 + src.Intn(40)
+	nt := src.Intn(60)
+	pool := meshgen.Pool(src, nv, meshgen.AllowFinite)
+	// the reader keys colours by coordinate: give == vertices the same colour
+	colors := make([][3]uint8, nv)
+	byCoord := map[model3d.Coord3D][3]uint8{}
+	for i, p := range pool {
+		k := round32(p)
+		if c, ok := byCoord[k]; ok {
+			colors[i] = c
+		} else {
+			colors[i] = [3]uint8{uint8(src.Intn(256)), uint8(src.Intn(256)), uint8(src.Intn(256))}
+			byCoord[k] = colors[i]
+		}
+	}
+	idx := make([][3]int, nt)
+	for i := range idx {
+		idx[i] = [3]int{src.Intn(nv), src.Intn(nv), src.Intn(nv)}
+	}
+	w := simio.NewWriter(simio.WriteFaults{})
+	mw, err := fileformats.NewPLYMeshWriter(w, nv, nt)
+	if err != nil {
+		return []Finding{{"ply_meshstream|write-error", err.Error()}}
+	}
+	for i, p := range pool {
+		if err := mw.WriteCoord(p.Array(), colors[i]); err != nil {
+			return []Finding{{"ply_meshstream|write-error", fmt.Sprintf("vertex %d: %v", i, err)}}
+		}
+	}
+	for i, t := range idx {
+		if err := mw.WriteTriangle(t); err != nil {
+			return []Finding{{"ply_meshstream|write-error", fmt.Sprintf("triangle %d: %v", i, err)}}
+		}
+	}
+	st.Files++
+	st.Bytes += int64(len(w.Buf))
+	st.Faces += int64(nt)
+	st.NonTrivial = nt > 0
+	st.shape(fmt.Sprintf("ply mesh stream faces=%d", bucket(nt)))
+	st.Sample = map[string]any{"kind": "ply_meshstream", "vertices": nv, "faces": nt, "bytes": len(w.Buf)}
+	want := make([]*model3d.Triangle, nt)
+	for i, t := range idx {
+		want[i] = &model3d.Triangle{pool[t[0]], pool[t[1]], pool[t[2]]}
+	}
+	for _, d := range deliveries(src, len(w.Buf)) {
+		r := simio.NewReader(w.Buf, d)
+		got, cm, err := model3d.ReadColorPLY(r)
+		st.account(r)
+		if err != nil {
+			fs = append(fs, Finding{"ply_meshstream|read-error", fmt.Sprintf("delivery %+v: %v", d, err)})
+			continue
+		}
+		if f := compareTrisEq("ply_meshstream", want, got, round32, numEq); f != nil {
+			f.Msg = fmt.Sprintf("delivery %+v: %s", d, f.Msg)
+			fs = append(fs, *f)
+			continue
+		}
+		for i, t := range got {
+			for j, v := range t {
+				c, ok := cm.Load(v)
+				if !ok || c != byCoord[v] {
+					fs = append(fs, Finding{"ply_meshstream|color", fmt.Sprintf("face %d vertex %d %v: colour %v (present: %v), written %v", i, j, v, c, ok, byCoord[v])})
+					return
+				}
+			}
+		}
+	}
+	return
+}
